@@ -290,7 +290,7 @@ GEOMS1 = {
     "open_hyper": [("A", "xp"), ("B", "xy"), ("C", "x"), ("D", "yq")],
     # forests with an isolated component that is a single tensor: a scalar (every 1-norm flavour) / a bond-free tensor with open legs
     "iso_scalar": [("A", "a"), ("B", "a"), ("S", "")],
-    "iso_open": [("A", "a"), ("B", "ab"), ("C", "b"), ("T", "pq"), ("S", "")],
+    "iso_open": [("A", "a"), ("B", "ab"), ("C", "b"), ("T", "pq")],
 }
 
 
